@@ -474,6 +474,25 @@ fn derive_call_shape(def: &CallDef, symbol_table: &mut BTreeMap<Rc<str>, Shape>)
     }
 }
 
+/// Whether a value of this shape can be a list, a tuple or a string at run time:
+/// the targets map, filter and reduce accept.
+fn may_be_iterable(shape: &Shape) -> bool {
+    match shape {
+        Shape::List(_) | Shape::Tuple(_) | Shape::Str(_) | Shape::Hole(_) => true,
+        // A named constraint may stand for any of them.
+        Shape::ConstraintRef(_) => true,
+        Shape::Narrowed(NarrowedShape {
+            types: NarrowingShape::Any,
+            ..
+        }) => true,
+        Shape::Narrowed(NarrowedShape {
+            types: NarrowingShape::Narrowed(candidates),
+            ..
+        }) => candidates.is_empty() || candidates.iter().any(may_be_iterable),
+        _ => false,
+    }
+}
+
 fn derive_func_op_shape(def: &FuncOpDef, symbol_table: &mut BTreeMap<Rc<str>, Shape>) -> Shape {
     match def {
         FuncOpDef::Map(MapFilterOpDef { func, target, pos }) => {
@@ -496,6 +515,13 @@ fn derive_func_op_shape(def: &FuncOpDef, symbol_table: &mut BTreeMap<Rc<str>, Sh
                 // Mapping over a string produces a string.
                 Shape::Str(_) => {
                     return Shape::Str(pos.clone());
+                }
+                // One of several candidates: which of the above it is gets decided at run time.
+                Shape::Narrowed(_) if may_be_iterable(&target_shape) => {
+                    return Shape::Narrowed(NarrowedShape {
+                        pos: pos.clone(),
+                        types: NarrowingShape::Any,
+                    });
                 }
                 _ => {
                     return Shape::TypeErr(
@@ -541,6 +567,13 @@ fn derive_func_op_shape(def: &FuncOpDef, symbol_table: &mut BTreeMap<Rc<str>, Sh
                     pos: pos.clone(),
                     types: NarrowingShape::Any,
                 }),
+                // One of several candidates: which of the above it is gets decided at run time.
+                Shape::Narrowed(_) if may_be_iterable(&target_shape) => {
+                    Shape::Narrowed(NarrowedShape {
+                        pos: pos.clone(),
+                        types: NarrowingShape::Any,
+                    })
+                }
                 _ => Shape::TypeErr(
                     pos.clone(),
                     format!(
@@ -566,6 +599,8 @@ fn derive_func_op_shape(def: &FuncOpDef, symbol_table: &mut BTreeMap<Rc<str>, Sh
                     types: NarrowingShape::Any,
                     ..
                 }) => {}
+                // One of several candidates: which of the above it is gets decided at run time.
+                Shape::Narrowed(_) if may_be_iterable(&target_shape) => {}
                 _ => {
                     return Shape::TypeErr(
                         pos.clone(),
